@@ -72,6 +72,9 @@ class KsHarness:
             if mine:
                 p = by_addr[endpoint.address]
                 self.newconn[p] = conn
+                # the simulated handshake is answered inside push(); the re-entered read loop recycles its stream id
+                # twice - keep every free id once
+                conn.request_ids = type(conn.request_ids)(dict.fromkeys(conn.request_ids))
                 orig_skb = conn.set_keyspace_blocking
 
                 def set_keyspace_blocking(keyspace, orig_skb=orig_skb, node=self.nodes[p]):
@@ -86,13 +89,8 @@ class KsHarness:
             return conn
         self.cluster.connection_factory = factory
         self.session = self.cluster.connect()
-        for n in self.nodes.values():
-            n.auto = True
-        try:
-            self.session.set_keyspace(OLD)              # the session starts on keyspace "ks"
-        finally:
-            for n in self.nodes.values():
-                n.auto = False
+        from harness.replay.pool import establish_keyspace
+        establish_keyspace(self.session, list(self.nodes.values()), OLD)       # the session starts on keyspace "ks"
         self.cluster.executor.inline = False
         hosts = {h.endpoint.address: h for h in self.cluster.metadata.all_hosts()}
         self.host = {p: hosts[self.addr[p]] for p in self.addr}
